@@ -68,6 +68,10 @@ CLAIMED = {
             "Exploration: 48 000 (entry point, shared tables, fixed locals, values) cases per quick run over NewBinaryWriter(ssts), NewBinaryWriterLST, MarshalBinary(ssts) and MarshalBinaryLST with 0-3 shared tables (overlapping text, system-symbol text, Adjust-ed max_id), symbols drawn half from inside and half from outside the tables; the reference decoder checks imports (name, version, max_id, order), lowest-ID use, no redundant / duplicate / unused local symbol, decodability with and without the catalog and value equality (also through ion-go's reader with the catalog); for fixed tables the first call that consumes outside text must fail, all later calls fail, earlier ones succeed and the bytes hold exactly the completed values.",
             "The empty text is exempt from the by-name / minimality assertions (never indexed by name, by design). $n-shaped text is not used. Trusts the reference decoder.",
             "DESIGN.md section 5, C11"),
+    "C16": (PBT + " over randomly assembled Go types (reflect.StructOf) and type-directed values; oracles: determinism, the independent reference decoders on MarshalText / MarshalBinary output against the harness's own reflection walk of the documented mapping, and the Marshal/Unmarshal round trip under semantic equality",
+            "Exploration: 120 000 (type, value, by value / by pointer) cases per quick run: types assembled from every supported kind with nesting <= 4, embedded structs, tag options (rename, omitempty, -, symbol, clob, sexp, annotations wrapper), three declared shapes (embedded pointer, unexported embedded struct, named scalar types); values with boundary numbers per width, NaN / infinities, nil versus empty collections, nil / non-nil pointers, interfaces holding scalars / slices / maps, time.Time in UTC / named / unnamed zones. Checks MarshalText determinism, that text and binary output denote exactly the documented mapping (reference decoders), and that Unmarshal of each into the same type gives a semantically equal value.",
+            "Semantic equality: NaN = NaN; nil and empty slice / map / []byte, and a pointer to such a value versus a nil pointer, are interchangeable; interface{} contents and time.Time are compared by denotation / instant. Not generated: annotation wrappers around structs, maps or pointers and annotated nulls (outside the documented wrapper shapes), shadowed field names (ion-go panics by design), non-string map keys. Trusts the harness's reflection walk and the reference decoders.",
+            "DESIGN.md section 5, C16"),
     "C19": ("fault enumeration + property-based testing with pgregory.net/rapid: every single split point / every read-fault offset / every failing Write-call index enumerated for a fixed set of documents and call sequences, random plans elsewhere; metamorphic oracle (any delivery plan vs whole buffer) and validity oracles (fault reported, sticky, accepted bytes a prefix)",
             "Fault enumeration: for ~100 fixed documents (hand-written lookahead-hungry texts/binaries + deterministic generator examples) every split point x {EOF alone, EOF with data} x {full, container-skipping traversal}, and a read failure at every byte offset x {alone, with data} x {persistent, one-off} x {whole, byte-at-a-time}; for 40 fixed call sequences x 4 writer configurations a write failure at every Write-call index x {nothing, half accepted} x {persistent, one-off}; plus ~17 000 random (document, plan) / (sequence, fault) cases per quick run including documents straddling bufio's 4096-byte buffer and corrupted documents.",
             "Faults are injected in the io.Reader / io.Writer the harness hands to ion-go (no hooks). A read plan returns at most one (0,nil) in a row. One-off (transient) faults are part of the fault model: the reader/writer must still report them. Trusts the harness's plan reader / fault writer, rapid, Go.",
